@@ -1,1 +1,72 @@
 import Iauthd.Addr.Proofs
+/-
+  C12 — address text round-trips for every address.
+
+  "For every 128-bit address, the text the daemon produces is accepted by its own parser and
+   by the standard library parser and denotes the same address (IPv4-compatible addresses
+   canonicalise to IPv4-mapped), never begins with ':' and fits the documented buffer size;
+   parsing any accepted plain address and printing it again is idempotent."
+
+  Model: `Iauthd.Addr.ntop` / `ptonWith fx` (Model.lean: the printer after fix_ntop.diff; the
+         parser both as it is now, `fx = false`, and after fix_pton_cidr.diff, `fx = true`).
+  Spec:  `refParse`, `canon` (Spec.lean); the judge evaluates `c12Check` on the C code.
+  The statements below are the headline theorems; their proofs are in Iauthd/Addr/Proofs*.lean.
+-/
+namespace Iauthd.Properties
+open Iauthd Iauthd.Addr
+
+/-- **C12** for the model of the repaired code, every address `a`:
+    1. the text fits the 40-byte buffer (≤ 39 characters, nothing cut, returned length exact);
+    2. it does not begin with ':';
+    3. the standard (reference) grammar accepts it as `canon a`;
+    4. the daemon's own parser accepts all of it as `canon a`, without a fault;
+    5. printing the reparsed address gives the same text. -/
+theorem C12 (fx : Bool) (a : Addr) :
+    ((ntop a 40).2 ≤ 39 ∧ (ntop a 40).1.length = (ntop a 40).2) ∧
+    (ntop a 40).1.head? ≠ some 58 ∧
+    refParse (ntop a 40).1 = some (canon a) ∧
+    ptonWith fx (ntop a 40).1 false false = .ok ⟨(ntop a 40).1.length, canon a, none, false⟩ ∧
+    (ntop (canon a) 40).1 = (ntop a 40).1 := by
+  refine ⟨⟨(ntop_len a).1, (ntop_len a).2.1⟩, ntop_no_colon a 40, ntop_ref a, ntop_pton fx a, ?_⟩
+  rw [(ntop_len (canon a)).2.2, (ntop_len a).2.2]
+  exact ntop_canon a
+
+/-- idempotence in the property's own wording: any accepted plain address text, printed,
+    parsed and printed again, is a fixed point -/
+theorem C12_idempotent (fx : Bool) (s : Bytes) (r : PtonRes) (h : ptonWith fx s false false = .ok r)
+    (hacc : r.ret ≠ 0) :
+    ∃ r', ptonWith fx (ntop r.addr 40).1 false false = .ok r' ∧ r'.ret = (ntop r.addr 40).1.length ∧
+      (ntop r'.addr 40).1 = (ntop r.addr 40).1 :=
+  print_parse_print fx s r h hacc
+
+/-- the judge's predicate holds of the model's own observations -/
+theorem C12_judge_on_model (a : Addr) :
+    c12Check a (ntop a 40).2 (ntop a 40).1 (ntop a 40).1.length (canon a) true (canon a) (ntop a 40).1 = none := by
+  obtain ⟨⟨h1, h2⟩, h3, h4, _, _⟩ := C12 false a
+  have hne : (ntop a 40).1 ≠ [] := by
+    rw [(ntop_len a).2.2]; exact (ntopFull_props a).2.2
+  have hemp : (ntop a 40).1.isEmpty = false := by
+    cases h : (ntop a 40).1 with
+    | nil => exact absurd h hne
+    | cons _ _ => rfl
+  unfold c12Check
+  simp [h2, h3, h4, hemp]
+  omega
+
+/-! non-vacuity: the hypotheses of `C12_idempotent` are satisfiable, and `canon` is not the
+    identity (an IPv4-compatible address really is printed and re-read as IPv4-mapped) -/
+
+example : ∃ s r, ptonWith false s false false = .ok r ∧ r.ret ≠ 0 :=
+  ⟨(ntop (Addr.ofList [1, 0, 0, 0, 0, 0, 0, 2]) 40).1, _, ntop_pton false _, by decide⟩
+
+example : canon (Addr.ofList [0, 0, 0, 0, 0, 0, 0x7f00, 1]) = Addr.ofList [0, 0, 0, 0, 0, 0xffff, 0x7f00, 1] := by
+  decide
+
+example : (ntop (Addr.ofList [0, 0, 0, 0, 0, 0, 0x7f00, 1]) 40).1 = [49, 50, 55, 46, 48, 46, 48, 46, 49] := by
+  decide
+
+/-- the statement fails for the pinned printer (F7, F8) -/
+example : refParse (ntopPinned (Addr.ofList [1, 0, 0, 2, 0, 3, 0, 0]) 40).1
+    ≠ some (canon (Addr.ofList [1, 0, 0, 2, 0, 3, 0, 0])) := by decide
+
+end Iauthd.Properties
